@@ -397,25 +397,35 @@ Proof. vm_compute. reflexivity. Qed.
 Print Assumptions c13_refuted_empty_leaflist.
 
 (* ---------- a key string that is not the canonical one ---------- *)
-(* The path names entry 1 as [id=01].  No entry prints "01", so SetNode makes a new entry for the
-   parsed key 1 and stores it over the existing one: an update of one leaf silently drops every
-   other leaf of the entry (here config/speed and the ordered list).  gNMI Set would either
-   address entry 1 or reject the path.  The schema guard of c13_refines_scalar_schema excludes
-   such paths (update_guardb is false). *)
+(* The path names entry 1 as [id=01].  No entry prints "01", so retrieveNodeList finds no match and
+   insertAndGetKey is asked for the parsed key 1; the map holds that key already, so the existing
+   entry is kept and the update acts on it: the result is the one of the request that spells the
+   key canonically, and every other leaf of the entry (here config/speed and the ordered list) is
+   still there.  (Before the repair of insertAndGetKey a new entry was stored over the existing
+   one.)  The schema guard of c13_refines_scalar_schema still excludes such paths (update_guardb
+   is false): GetNode / DeleteNode do not find the entry under that spelling. *)
 Definition c13_req_noncanon : sreq := c13_updates [(c13_if "01" "descr", TVString (S_ "x"))].
-Theorem c13_refuted_noncanonical_key_replaces_entry : exists t' m m' speed,
+Definition c13_req_canon : sreq := c13_updates [(c13_if "1" "descr", TVString (S_ "x"))].
+Theorem c13_noncanonical_key_keeps_entry : exists t' m m' speed descr,
   c13_run no_opts c13_t0 c13_req_noncanon = (t', SROk) /\ c13_lv c13_t0 = Ok m /\ c13_lv t' = Ok m'
-  /\ speed = elems (c13_if "1" "speed")
-  /\ In (speed, LV (VInt U32 100)) m /\ has_path m' speed = false
+  /\ c13_run no_opts c13_t0 c13_req_canon = (t', SROk)
+  /\ speed = elems (c13_if "1" "speed") /\ descr = elems (c13_if "1" "descr")
+  /\ In (speed, LV (VInt U32 100)) m /\ In (speed, LV (VInt U32 100)) m'
+  /\ In (descr, LV (VStr (S_ "x"))) m'
+  /\ (forall q v, In (q, v) m -> q <> descr -> In (q, v) m')
   /\ update_guardb c13_env c13_fo c13_ko c13_sch (elems (c13_if "01" "descr")) (TVString (S_ "x")) = false
   /\ update_guardb c13_env c13_fo c13_ko c13_sch (elems (c13_if "1" "descr")) (TVString (S_ "x")) = true.
 Proof.
-  eexists. eexists. eexists. eexists.
+  eexists. eexists. eexists. eexists. eexists.
   split; [vm_compute; reflexivity|]. split; [vm_compute; reflexivity|]. split; [vm_compute; reflexivity|].
-  split; [reflexivity|].
-  split; [vm_compute; tauto|]. split; vm_compute; auto.
+  split; [vm_compute; reflexivity|].
+  split; [reflexivity|]. split; [reflexivity|].
+  split; [vm_compute; tauto|]. split; [vm_compute; tauto|]. split; [vm_compute; tauto|].
+  split; [|split; vm_compute; reflexivity].
+  intros q v Hin Hne. vm_compute in Hin. vm_compute in Hne. vm_compute.
+  repeat (destruct Hin as [Hin|Hin]; [injection Hin as <- <-; tauto|]). destruct Hin.
 Qed.
-Print Assumptions c13_refuted_noncanonical_key_replaces_entry.
+Print Assumptions c13_noncanonical_key_keeps_entry.
 
 (* ---------- atomic notification ---------- *)
 Definition c13_notif : notif :=
